@@ -647,13 +647,37 @@ class Prover:
         cls = [a for a in info.get("locargs", ()) if isinstance(a, tuple) and a and a[0] == "agg" and len(a) > 4 and a[1] == "closure"]
         if not cls:
             return None
-        r = self._rng(old, bb, d)
+        so = strip(old)
+        if so[0] == "param" and self.body.local_ty(so[1]) is not None and self.body.local_ty(so[1]).k == "ref":
+            # (normalisation drops the dereference: what a `&mut` parameter pointed to at entry is meant)
+            so = ("deref", so)
+            r = self._rng0(so, bb, d)
+        else:
+            r = self._rng(old, bb, d)
+        st_call = self.se.in_state.get(call[3][1], {})
+
+        def cap_target(c):
+            """the place a `&mut` capture leads to: the pointee of a parameter / local reference it captured, or the captured local itself"""
+            L = c[1]
+            if L[0] == "local":
+                v = strip(self.se.read(st_call, L))
+                if v[0] == "param":
+                    return ("deref", v)
+                if v[0] == "ref":
+                    return v[1]
+            return L
+
         for cl in cls:
-            for k_, c in enumerate(cl[4]):
-                if c[0] == "ref" and len(c) > 2 and c[2]:
-                    s_ = self._closure_stores(cl[2], k_)
-                    if s_ is not None:
-                        r = join(r, s_)
+            muts = [(k_, c) for k_, c in enumerate(cl[4]) if c[0] == "ref" and len(c) > 2 and c[2]]
+            # the pointee asked about is still what the parameter pointed to at entry: only the
+            # capture that leads to that very place can have written it (two `&mut` parameters do
+            # not alias); otherwise every mutable capture is taken into account
+            if so[0] == "deref" and so[1][0] == "param" and any(cap_target(c) == so for _, c in muts):
+                muts = [(k_, c) for k_, c in muts if cap_target(c) == so]
+            for k_, c in muts:
+                s_ = self._closure_stores(cl[2], k_)
+                if s_ is not None:
+                    r = join(r, s_)
         return r
 
     def _captured_scalar_range(self, t, d):
